@@ -414,3 +414,43 @@ M('C12', 'cache-error-fatal', DBD + 'digesters/cardano_immutable_digester.rs',
             },""", ['fetch:fallback'], 'cache read error drops every file')
 M('C12', 'unsorted-listing', DBD + 'entities/immutable_file.rs',
   '        files.sort();\n\n        Ok(files)', '        Ok(files)', ['list_all:sort'], 'directory order reaches the digest list')
+
+# ---------------------------------------------------------------- C13
+CTR = 'internal/mithril-persistence/src/database/repository/cardano_transaction_repository.rs'
+BTI = 'internal/cardano-node/mithril-cardano-node-chain/src/chain_importer/blocks_and_transactions_importer.rs'
+M('C13', 'legacy-roots-not-rolled-back', CTR,
+  """        connection.fetch_first(
+            DeleteLegacyBlockRangeRootQuery::contains_or_above_block_number_threshold(
+                block_number,
+            )?,
+        )?;
+""", """        let _ = DeleteLegacyBlockRangeRootQuery::contains_or_above_block_number_threshold(
+            block_number,
+        )?;
+""", ['rollback:transaction'], 'stale legacy range roots survive a roll-back')
+M('C13', 'rollback-not-committed', CTR,
+  """        transaction.commit()?;
+        Ok(())
+    }
+
+    /// Remove blocks, transactions, and block range roots that are in a rolled-back fork""", """        let _ = transaction;
+        Ok(())
+    }
+
+    /// Remove blocks, transactions, and block range roots that are in a rolled-back fork""", ['rollback:transaction'], 'roll-back never committed')
+M('C13', 'rollback-error-ignored', BTI,
+  """                        .remove_rolled_chain_data_and_block_range(slot_number)
+                        .await?;""", """                        .remove_rolled_chain_data_and_block_range(slot_number)
+                        .await
+                        .ok();""", ['importer:loop'], 'failed roll-back ignored')
+M('C13', 'cursor-advanced-in-loop', BTI,
+  """                        .store_blocks_and_transactions(parsed_blocks_with_transactions)
+                        .await?;
+                }""", """                        .store_blocks_and_transactions(parsed_blocks_with_transactions)
+                        .await?;
+                    if let Some(point) = streamer.last_polled_point() {
+                        *self.last_polled_point.lock().await = Some(point);
+                    }
+                }""", ['importer:cursor'], 'cursor moves before the batch loop completed')
+M('C13', 'rollback-threshold-inclusive', 'internal/mithril-persistence/src/database/query/cardano_block/delete_cardano_block_and_transactions.rs',
+  'WhereCondition::new("block_number > ?*", vec![threshold])', 'WhereCondition::new("block_number >= ?*", vec![threshold])', ['sql:'], 'the block at the roll-back point is deleted too')
